@@ -158,6 +158,12 @@ func checkRun(c *caseRun, expectedAtStart [][]walItem) []finding {
 			break
 		}
 		for _, e := range inc.unlogged {
+			if e.Kind == "height-start-logged-under-later-height" {
+				out = append(out, finding{"height-start-logged-under-later-height",
+					fmt.Sprintf("incarnation %d effect %d (%s)", inc.idx, e.N, e.Key),
+					map[string]any{"effects": tail(effectKeys(inc.effects), 14)}})
+				break
+			}
 			out = append(out, finding{"visible-effect-of-unlogged-input:" + e.Kind,
 				fmt.Sprintf("incarnation %d effect %d (%s): that input is not in the flushed log", inc.idx, e.N, e.Key),
 				map[string]any{"effects": tail(effectKeys(inc.effects), 12)}})
@@ -331,6 +337,21 @@ func diffSeq(want, got []string) string {
 	return "order"
 }
 
+func dedupStarts(in []string) []string {
+	seen := map[string]bool{}
+	var out []string
+	for _, k := range in {
+		if strings.HasPrefix(k, "start h=") {
+			if seen[k] {
+				continue
+			}
+			seen[k] = true
+		}
+		out = append(out, k)
+	}
+	return out
+}
+
 type summary struct {
 	Broadcasts map[string]bool
 	Commits    []string
@@ -393,7 +414,9 @@ func compareTwin(twin, got summary) []finding {
 	if twin.Height != got.Height {
 		out = append(out, finding{"final-state-differs:height", fmt.Sprintf("final height %d, twin %d", got.Height, twin.Height), nil})
 	}
-	if d := diffSeq(twin.WAL, got.WAL); d != "" {
+	// a repeated height-start record is idempotent for the state machine (ProcessStart of a
+	// started height does nothing), so repeated start records are collapsed before comparing
+	if d := diffSeq(dedupStarts(twin.WAL), dedupStarts(got.WAL)); d != "" {
 		out = append(out, finding{"final-state-differs:log-" + d,
 			fmt.Sprintf("log content at the final height differs from the twin's (%s)", d),
 			map[string]any{"twin": twin.WAL, "got": got.WAL}})
@@ -621,6 +644,9 @@ func runCase(t *testing.T, r *lib.Run, idx int) {
 				fs = append(fs, finding{"wal-reopen-failed", "reopening the final log: " + err.Error(), nil})
 			} else {
 				r.Count("twin_comparisons", 1)
+				if diffSeq(twinSum.WAL, sum.WAL) != "" && diffSeq(dedupStarts(twinSum.WAL), dedupStarts(sum.WAL)) == "" {
+					r.Count("twin_comparisons_where_logs_differ_only_by_a_repeated_start_record", 1)
+				}
 				fs = append(fs, compareTwin(twinSum, sum)...)
 			}
 		}
@@ -693,7 +719,7 @@ func loadFinal(root string) ([]walItem, error) {
 
 func TestC13(t *testing.T) {
 	r := lib.Start("C13", "fault_enumeration")
-	n := r.N(24, 600)
+	n := r.N(48, 1600)
 	if _, err := os.MkdirTemp("", "c13-probe-"); err != nil {
 		t.Fatalf("no scratch space: %v", err)
 	}
